@@ -51,6 +51,10 @@ CHECKS = {
            'field name / tag / package of a non-exported field) and the assertion target; method sets through value and pointer embedding at depth <= 3 (13 receiver shapes x value/pointer/both interfaces), '
            'dispatch through interfaces, embedded fields, method values and expressions with payloads mutated afterwards (receiver copied vs shared), interface-to-interface assertions, nil, interface equality incl. '
            'uncomparable panics, dynamic types as map keys; every path must give the trace Go prescribes.', 'DESIGN.md §4 C09'),
+ 'C10': tv('7 multi-package / multi-file templates: a chain+diamond of four packages, three files of one package (twice, with the file names swapped), hidden initialisation dependencies through methods, closures, method '
+           'expressions and multi-value initialisers, init functions that run once and before main, a goroutine started from init; every variable initialiser and init function calls the yield intrinsic, and each dynamic yield is a '
+           'symbolic boolean, so the prescribed order is decided for EVERY subset of suspending initialisers (a suspended initialiser is never overtaken). go:linkname to a function, a value method and a pointer method with the import '
+           'graph pointing either way; the three unsupported uses must make the real build fail (plain observation).', 'DESIGN.md §4 C10'),
  'C13': tv('Overrides are exercised through templates importing math, math/bits, sync/atomic, unicode and gopherjs/nosync (the real overlay merge builds them): bits.Add32 (Mul32/Div32/Rem32 in the thorough tier), '
            'atomic Add/Swap/CompareAndSwap/Load/Store on int32/uint32/uintptr/int64 vs their sequential specification, nosync Mutex/RWMutex/WaitGroup/Once/Map/Pool histories chosen by symbolic selectors '
            '(panic exactly where sync would block), unicode case-mapping laws, and math Floor/Ceil/Trunc/Sqrt/Copysign/Signbit/IsNaN/IsInf/Min/Max for every float64 in the SMT FloatingPoint theory.', 'DESIGN.md §4 C13'),
